@@ -46,7 +46,7 @@ import os
 checks = [
  check("C19", "jiffsim", "DESIGN.md section 3",
   "Seeded search over schedules and fault sequences: each run executes the real TimeZoneDatabase code (zoneinfo, concatenated, bundled) on a real tmpfs directory with 1-4 caller threads and 0-2 disk-mutator threads under a harness-owned scheduler (simulated threads are real OS threads, one running at a time), a simulated monotonic clock that crosses the (measured, see sim/src/c19/calib.rs) time-to-live exactly, a lock shim that makes every RwLock acquisition a scheduling point and models writer preference as a per-run knob, and 16 fault kinds (disk mutations incl. torn in-place rewrites and writer crashes, injected I/O errors, clock jumps, missing clock, restarts, resets); the recorded history is checked against the recorded disk states (freshness within one TTL / after reset, canonical identity, completeness of available(), reuse of unchanged files, hostile names, no panic / deadlock / unbounded steps). Sampling, not proof: a clean batch is evidence that the property holds on the explored interleavings.",
-  "Trusted: std::fs + kernel tmpfs, std RwLock, Arc, jiff's in-memory TZif parser as the reference for 'which zone do these bytes denote'. Assumes A1-A8 of DESIGN.md section 7 (notably: every content change changes the mtime). Code between two cfg(jiff_verif) sites is atomic in the simulation. EIO/EINTR/short reads and allocation failure are not injected.",
+  "Trusted: std::fs + kernel tmpfs, std RwLock, Arc, jiff's in-memory TZif parser as the reference for 'which zone do these bytes denote'. Assumes A1-A8 of DESIGN.md section 7 (notably: every content change changes the mtime; the one same-mtime case checked is a deterministic probe: replacement with an unchanged mtime, then reset(), must be re-read). Code between two cfg(jiff_verif) sites is atomic in the simulation. EIO/EINTR/short reads and allocation failure are not injected.",
   "deterministic simulation with fault injection (seeded scheduler + simulated clock + faulted tmpfs, history oracle)"),
 ]
 if os.path.exists("/verif/sim/src/c20/mod.rs"):
